@@ -222,6 +222,8 @@ def dict_content(I: Interp, ref, tree):
         sub = dict_content(I, e[1], tree) if e[0] == "**" else None
         if sub is not None:
             # ``{**d, ...}`` / ``d | {...}``: the entries of d as they are at that point, later keys win
+            if getattr(o, "dropnone_all", False):
+                sub = [(k, v if (isinstance(v, tuple) and v and v[0] == "dropnone") else ("dropnone", v), g) for k, v, g in sub]
             for k, v, g in sub:
                 if not g:
                     out = [x for x in out if x[0] != k]
